@@ -51,7 +51,7 @@ SEEDS.update({k: tuple(v) for k, v in EXTRA.items()})
 
 only = sys.argv[1:]
 for sd, (prop, needs, checks) in SEEDS.items():
-    name = sd.replace("seed-", "").replace("seed2-", "").replace("seed3-", "").replace("seed4-", "").replace("/", "-") + ("-r2" if sd.startswith("seed2-") else "-r3" if sd.startswith("seed3-") else "-r4" if sd.startswith("seed4-") else "")
+    name = sd.replace("seed-", "").replace("seed2-", "").replace("seed3-", "").replace("seed4-", "").replace("seed5-", "").replace("/", "-") + ("-r2" if sd.startswith("seed2-") else "-r3" if sd.startswith("seed3-") else "-r4" if sd.startswith("seed4-") else "-r5" if sd.startswith("seed5-") else "")
     if only and name not in only:
         continue
     src = "/tmp/" + sd
@@ -65,7 +65,7 @@ for sd, (prop, needs, checks) in SEEDS.items():
     if os.path.exists(src + "/README.md"):
         shutil.copy(src + "/README.md", out + "/notes.md")
     conf = {}
-    cj = "/tmp/confirm/" + sd.replace("seed-", "").replace("seed2-", "r2_").replace("seed3-", "r3_").replace("seed4-", "r4_").replace("/", "_") + ".json"
+    cj = "/tmp/confirm/" + sd.replace("seed-", "").replace("seed2-", "r2_").replace("seed3-", "r3_").replace("seed4-", "r4_").replace("seed5-", "r5_").replace("/", "_") + ".json"
     if os.path.exists(cj):
         conf = json.load(open(cj))
     r = subprocess.run(["git", "-C", "/repo", "apply", out + "/patch.diff"], capture_output=True, text=True)
@@ -74,7 +74,13 @@ for sd, (prop, needs, checks) in SEEDS.items():
         results = {"apply": "FAILED " + r.stderr[:200]}
     else:
         for c in checks:
-            p = subprocess.run(["/verif/check", c, "quick"], capture_output=True, text=True)
+            # "C03" = quick tier; "C03:thorough:HIST_ONLY=E11" = another tier, restricted to some drivers by an env filter
+            parts = c.split(":")
+            env = dict(os.environ)
+            for kv in parts[2:]:
+                k, v = kv.split("=", 1)
+                env[k] = v
+            p = subprocess.run(["/verif/check", parts[0], parts[1] if len(parts) > 1 else "quick"], capture_output=True, text=True, env=env)
             first = next((l.strip() for l in p.stdout.splitlines() if l.strip().startswith("what:")), "")
             results[c] = {"exit": p.returncode, "violation_lines": sum(1 for l in p.stdout.splitlines() if l.startswith("VIOLATION")), "first": first[:300]}
         subprocess.run(["git", "-C", "/repo", "checkout", "--", "."])
@@ -82,8 +88,9 @@ for sd, (prop, needs, checks) in SEEDS.items():
     meta = {"seed": name, "breaks_property": prop, "needs_to_manifest": needs,
             "written_by": "independent sub-agent given only the property text and a scratch worktree",
             "confirmed_in_scratch_worktree": conf,
-            "commands": ["git -C /repo apply /verif/seeded/%s/patch.diff" % name] + ["/verif/check %s quick" % c for c in checks] + ["git -C /repo checkout -- ."],
+            "commands": ["git -C /repo apply /verif/seeded/%s/patch.diff" % name] + [(" ".join(c.split(":")[2:]) + " /verif/check %s %s" % (c.split(":")[0], (c.split(":") + ["quick"])[1])).strip() for c in checks] + ["git -C /repo checkout -- ."],
             "quick_check_results_with_patch_applied": results,
-            "caught_by": [c for c, v in results.items() if isinstance(v, dict) and v.get("exit") == 1]}
+            "caught_by": [c for c, v in results.items() if isinstance(v, dict) and v.get("exit") == 1],
+            "undecided_by": [c for c, v in results.items() if isinstance(v, dict) and v.get("exit") == 2]}
     json.dump(meta, open(out + "/meta.json", "w"), indent=1)
     print(name, {c: (v["exit"] if isinstance(v, dict) else v) for c, v in results.items()}, flush=True)
